@@ -46,6 +46,7 @@ class State:
         self.results = {}     # op index -> result of observation ops
         self.dns_done = {}
         self.detached = set()  # stand-alone bundles not (yet) attached to the document
+        self.standalone = set()  # every target that was created as a stand-alone ProvBundle
         self.nspool = {}
         self.style_xor = 0    # flips the call style of factory calls (route twins)
 
@@ -157,10 +158,12 @@ def exec_op(st, op):
             b = pm.ProvBundle(identifier=st.mk_name(op[2]), namespaces=dict(op[3]) if op[4] == "dict" else [st.namespace(p, u) for p, u in op[3]])
             st.tg[op[1]] = b
             st.detached.add(op[1])
+            st.standalone.add(op[1])
             return b
         b = pm.ProvBundle(identifier=st.mk_name(op[2]))
         st.tg[op[1]] = b
         st.detached.add(op[1])
+        st.standalone.add(op[1])
         return b
     if k == "attach":
         if op[1] not in st.tg or op[1] not in st.detached:
